@@ -1,0 +1,33 @@
+//go:build verif
+
+// Package verifhook provides instrumentation points for external
+// verification harnesses. This is the "verif" build: a harness may install a
+// handler that is invoked at every instrumentation point.
+package verifhook
+
+import "sync/atomic"
+
+// Enabled reports whether the package was built with the "verif" tag.
+const Enabled = true
+
+// Handler is called with the name of the instrumentation point and the object
+// the point belongs to (interpreted only by the harness).
+type Handler func(point string, obj any)
+
+var h atomic.Pointer[Handler]
+
+// Set installs (or, with nil, removes) the handler.
+func Set(f Handler) {
+	if f == nil {
+		h.Store(nil)
+		return
+	}
+	h.Store(&f)
+}
+
+// At marks an instrumentation point.
+func At(point string, obj any) {
+	if f := h.Load(); f != nil {
+		(*f)(point, obj)
+	}
+}
